@@ -11,17 +11,28 @@ ParsedTexts == { << Items(t), MapClassify(Split(t)) >> : t \in Texts }
 ParsedByLen == [k \in 0..(2 * MaxTextLines) |-> { p \in ParsedTexts : Len(p[1]) = k }]
 ParseMC(p) == lines' = lines \o p[1] /\ model' = DParse(model, p[2])
 ASSUME \A p \in ParsedTexts : p[1] = p[2] /\ Len(p[1]) <= 2 * MaxTextLines
+MCParse == \E k \in 1..(MaxLines - Len(lines)) : k <= 2 * MaxTextLines /\ \E p \in ParsedByLen[k] : ParseMC(p)
+\* one named action per branch of ini_val_set, so that -coverage shows that each is taken
+MCSetOn(path) == /\ \E s \in Sections, n \in Names, v \in Values :
+                      SetPath(lines, s, n, v, RepairedFind) = path /\ Set(s, n, v)
+                 /\ Len(lines') <= MaxLines
+MCSetNewSect == MCSetOn("newsect")
+MCSetInsert  == MCSetOn("insert")
+MCSetInPlace == MCSetOn("inplace")
+MCSetRealloc == MCSetOn("realloc")
 MCNext == /\ TLCGet("level") <= MaxDepth
-          /\ \/ \E k \in 1..(MaxLines - Len(lines)) : k <= 2 * MaxTextLines /\ \E p \in ParsedByLen[k] : ParseMC(p)
-             \/ /\ \E s \in Sections, n \in Names, v \in Values : Set(s, n, v)
-                /\ Len(lines') <= MaxLines
+          /\ (MCParse \/ MCSetNewSect \/ MCSetInsert \/ MCSetInPlace \/ MCSetRealloc)
 MCSpec == MCInit /\ [][MCNext]_vars
 
 Inv_LookupS   == LookupIsLastWriteS(Sections, Names)
 Inv_LookupI   == LookupIsLastWriteI(Sections, Names)
 Inv_SetGet    == SetThenGet(Sections, Names, Values)
 Inv_SetOrder  == SetKeepsOrder(Sections, Names, Values)
-\* vacuity companions (checked negated in the thorough tier): the guarded invariants have non-trivial instances
-Reach_NoDupBig == ~(~model.dupI /\ Len(model.secs) >= 2 /\ \E i \in 1..Len(model.secs) : Len(model.secs[i].ents) >= 2)
+\* vacuity companions: each is EXPECTED TO BE VIOLATED (the situation is reachable), checked in the thorough tier
+Reach_DictBig   == ~(~model.dupI /\ Len(model.secs) >= 2 /\ \E i \in 1..Len(model.secs) : Len(model.secs[i].ents) >= 2)
+Reach_DupSOnly  == ~(model.dupS)
+Reach_DupIOnly  == ~(model.dupI /\ ~model.dupS)
+Reach_BlankTail == ~(\E i \in 1..Len(lines) : lines[i].type = T_VALUE /\ i > 2 /\ lines[i - 1].type = T_VALUE
+                        /\ i < Len(lines) /\ lines[i + 1].type = T_EMPTY /\ lines[i].alloc > Len(lines[i].raw) + PAD)
 
 =============================================================================
